@@ -364,13 +364,16 @@ func (f *frame) strEqual(a, b Term) Term {
 			for i := 0; i < len(s); i++ {
 				cs = append(cs, mkEq(mkSelect(vc.smem(), bvAdd(strPtr(b), i64(int64(i))), SBV8), bvLit(8, uint64(s[i]))))
 			}
-			return mkAnd(cs...)
+			r := vc.define(f.prefix+"streq", mkAnd(cs...))
+			// interning instance: equal content means the very same string value
+			vc.assume(mkEq(r, mkEq(a, b)))
+			return r
 		}
 	}
-	vc.hasQuant = true
-	q := fmt.Sprintf("(forall ((i!s (_ BitVec 64))) (=> (and (bvsle #x0000000000000000 i!s) (bvslt i!s %s)) (= (select SMem (bvadd %s i!s)) (select SMem (bvadd %s i!s)))))", strLen(a).S, strPtr(a).S, strPtr(b).S)
-	vc.smem()
-	return mkAnd(mkEq(strLen(a), strLen(b)), Term{q, SBool})
+	// Strings are modelled as interned values: equal contents have the same (address, length), so
+	// two non-constant strings are equal iff their representations are (every real execution has
+	// such a canonical model; map keys rely on the same convention).
+	return mkEq(a, b)
 }
 
 func (f *frame) strConcat(a, b Term) Term {
